@@ -51,8 +51,62 @@ def failing_goal(out, goals):
     return None
 
 
+ROW = re.compile(r"^\s*(\d+) \|\s*([0-9.]+e[-+]?\d+) \|")
+CONV = re.compile(r"converged in (\d+) step")
+
+
+def acceptance_from_log(text):
+    """tables printed by the solvers at Verbosity::Iter: the iteration reported as converged must be the first one whose
+    logged residual norm is below the tolerance (model: newton_loop / newton_loop_accept)"""
+    import json as _json
+    bad, tables, accepted = [], 0, 0
+    cur = None
+    rows = {}
+
+    def close(conv):
+        nonlocal tables, accepted, rows
+        if cur is None or not rows:
+            rows = {}
+            return
+        tables += 1
+        tol = cur["tol"]
+        early = [i for i in sorted(rows) if rows[i] < tol and (conv is None or i < conv)]
+        if conv is not None:
+            accepted += 1
+            if conv not in rows or not rows[conv] < tol or early:
+                bad.append({"call": cur, "converged_at": conv, "residuals": [rows[i] for i in sorted(rows)], "tol": tol})
+        elif early:
+            bad.append({"call": cur, "converged_at": None, "residuals": [rows[i] for i in sorted(rows)], "tol": tol})
+        rows = {}
+
+    for line in text.splitlines():
+        if line.startswith("C06LOG begin "):
+            cur = _json.loads(line[len("C06LOG begin "):])
+            rows = {}
+        elif line.startswith("C06LOG end"):
+            close(None)
+            cur = None
+        elif cur is not None:
+            if line.startswith(" iter |"):
+                close(None)
+                continue
+            m = ROW.match(line)
+            if m:
+                rows[int(m.group(1))] = float(m.group(2))
+                continue
+            m = CONV.search(line)
+            if m:
+                close(int(m.group(1)))
+    return tables, accepted, bad
+
+
 def run(ctx):
     impl = V.run_harness("c06", ctx)
+    try:
+        log_text = open(os.path.join(ctx.logs, "harness_c06.log")).read()
+    except OSError:
+        log_text = ""
+    acc_tables, acc_accepted, acc_bad = acceptance_from_log(log_text)
     gen_files = sorted(os.path.join(ctx.gen, f) for f in os.listdir(ctx.gen) if f.endswith(".v"))
     lib = V.check_props(ctx, PROP_FILES, gen_files)
     res = V.coqc_many(gen_files, ctx, timeout=1200)
@@ -115,6 +169,15 @@ def run(ctx):
         V.violation(ctx, what, {"broken": "correspondence: gen/C06/%s" % m["file"], "goal": g, "coq_error": m["coq_error"],
                                 "failing_returned_states": unknown[:5]}, found_input=bool(unknown))
 
+    if acc_bad:
+        b = acc_bad[0]
+        V.violation(ctx, "stopping rule: %d iteration table(s) where the iteration reported as converged is not the first with residual norm < tol, e.g. %s converged at %s with residuals %s (tol %g)"
+                    % (len(acc_bad), b["call"], b["converged_at"], b["residuals"][-3:], b["tol"]),
+                    {"broken": "correspondence: Verbosity::Iter log vs newton_loop (newton_loop_accept / hkm_accept)", "failing": acc_bad[:10]},
+                    found_input=True)
+    if acc_tables == 0:
+        V.violation(ctx, "no iteration tables found in the harness log", {"broken": "correspondence: Verbosity::Iter log"}, found_input=False)
+
     stats = search["stats"]
     cov = {
         "obligations": obligations,
@@ -130,6 +193,8 @@ def run(ctx):
         "axioms_reported": lib["axioms"],
         "correspondence_goals": goal_stats,
         "tolerances": impl["tolerances"],
+        "acceptance_log": {"iteration_tables": acc_tables, "converged": acc_accepted, "mismatches": len(acc_bad),
+                           "rule": "converged at iteration k <=> k is the first iteration whose logged residual norm is < tol (tol = default 1e-8, 1e-6, 1e-10)"},
         "support_search": {"level": "exploration", "stats": stats, "failures": len(fails), "known": len(fails) - len(unknown),
                            "ranges": "initial temperatures 0.5..1.6 (grid step 0.1) of the true critical temperature + default start; "
                                      "spinodal temperatures in [0.5,0.99] Tc; Peng-Robinson Tc in [100,900] K, pc in [5,200] bar, omega in [-0.1,1]"},
